@@ -342,9 +342,12 @@ class Verdict:
     """Collects rejected observations for one property run and turns them
     into output lines and an exit code."""
 
+    live = []                   # verdicts of this process (see binding_selftest)
+
     def __init__(self, prop):
         self.prop = prop
         self.known = known_keys(prop)
+        Verdict.live.append(self)
         self.violations = []     # (key, payload)
         self.known_hits = {}     # key -> count
         self.known_what = {}
@@ -410,9 +413,33 @@ def main_wrapper(fn):
     except MachineryError as ex:
         print(f'MACHINERY-ERROR: {ex}', file=sys.stderr)
         sys.exit(2)
-    except Exception:
+    except Exception as ex:
         import traceback
         traceback.print_exc()
+        # an exception that comes out of the library under test during a call
+        # the harness makes on every run is an observation about the library
+        # (none of the modelled calls may raise), not a failure of the machinery
+        import re
+        text = ''.join(traceback.format_exception(ex))      # includes a worker's remote traceback
+        where = [m for m in re.finditer(r'File "([^"]*/panqec/[^"]*)", line (\d+)', text)
+                 if '/site-packages/' not in m.group(1) and '/verif/' not in m.group(1)]
+        live = [v for v in Verdict.live]
+        if where and live:
+            loc = f'panqec/{where[-1].group(1).split("/panqec/")[-1]}:{where[-1].group(2)}'
+            v = live[-1]
+            v.reject(f'{v.prop}:library_call_raised:{type(ex).__name__}@{loc}',
+                     {'exception': f'{type(ex).__name__}: {str(ex)[:300]}', 'where': loc,
+                      'traceback': traceback.format_exc()[-2000:]})
+            print('NOTE: the run was cut short by an exception raised inside the library',
+                  file=sys.stderr)
+            rc = v.finish()
+            try:
+                write_evidence(v.prop, sys.argv[1] if len(sys.argv) > 1 else 'quick', 'other',
+                               {'states': 0, 'transitions': 0, 'traces_validated_against_impl': 0,
+                                'cut_short_by_exception_in_library': loc}, 0.0, len(v.violations))
+            except Exception:      # noqa
+                pass
+            sys.exit(rc)
         print('MACHINERY-ERROR: unexpected exception in harness',
               file=sys.stderr)
         sys.exit(2)
@@ -517,6 +544,13 @@ def binding_selftest(name, module, recs, mutate, pick=3, cfg=None, evaluator=Non
     else:
         rej, _ = eval_records(module, chosen, name + '-selftest', shards=1, cfg=cfg)
     missed = [m['id'] for m in chosen if m['id'] not in rej]
+    if missed and any(v.violations for v in Verdict.live):
+        # the implementation under test already violates the property: the run
+        # ends with its VIOLATION lines; a self-test disturbed by the same
+        # defect must not turn the verdict into a machinery failure
+        print(f'NOTE: {name}: binding self-test inconclusive on a violating tree '
+              f'({len(missed)} corrupted record(s) accepted)')
+        return len(chosen) - len(missed)
     if missed:
         raise MachineryError(f'{name}: binding self-test failed - {len(missed)} corrupted '
                              f'record(s) were accepted by {module}')
